@@ -127,7 +127,9 @@ static void work(void *ctxt, size_t idx)
 static void do_apply(ap_t *a)
 {
 	a->call_seq = vrt_api("Call", -1, a->id, a->n, a->qn);
-	dispatch_apply_f((size_t)a->n, a->q ? a->q : DISPATCH_APPLY_AUTO, a, work);
+	/* both entry points: function + context, and the block form */
+	if (vrt_rand() & 1) dispatch_apply((size_t)a->n, a->q ? a->q : DISPATCH_APPLY_AUTO, ^(size_t i) { work(a, i); });
+	else dispatch_apply_f((size_t)a->n, a->q ? a->q : DISPATCH_APPLY_AUTO, a, work);
 	a->ret_seq = vrt_api("Ret", -1, a->id, 0, 0);
 	/* C10: returns only after all n invocations have finished, each exactly once */
 	for (int i = 0; i < a->n; i++) {
